@@ -455,10 +455,39 @@ impl Report {
         let kf = &self.kf;
         let id = self.id;
         let strict = self.strict;
+        // slow-case monitor, as in `explore`: an index that runs for minutes ends the run as inconclusive
+        let current: Vec<Mutex<Option<(Instant, u64)>>> = (0..threads).map(|_| Mutex::new(None)).collect();
+        let finished = AtomicBool::new(false);
+        let live = AtomicUsize::new(threads);
+        let phase_name = phase.to_string();
+        let next_slot = AtomicUsize::new(0);
         std::thread::scope(|s| {
+            s.spawn(|| {
+                while !finished.load(Ordering::SeqCst) && live.load(Ordering::SeqCst) > 0 {
+                    std::thread::sleep(std::time::Duration::from_millis(500));
+                    for slot in current.iter() {
+                        let g = slot.lock().unwrap();
+                        if let Some((t0, i)) = g.as_ref() {
+                            let secs = t0.elapsed().as_secs();
+                            if secs >= slow_limit() {
+                                let path = format!("{}/logs/slow-{}-{}.json", verif_dir(), id, phase_name);
+                                let _ = std::fs::create_dir_all(format!("{}/logs", verif_dir()));
+                                let tape = vec![(*i >> 48) as u16, (*i >> 32) as u16, (*i >> 16) as u16, *i as u16];
+                                let _ = std::fs::write(&path, serde_json::to_string(&json!({"phase": phase_name, "tape": tape})).unwrap());
+                                println!(
+                                    "INCONCLUSIVE: property={} phase={} index {} ran for more than {} s (replay file: {})",
+                                    id, phase_name, i, secs, path
+                                );
+                                std::process::exit(2);
+                            }
+                        }
+                    }
+                }
+            });
             for _ in 0..threads {
                 s.spawn(|| {
                     crate::util::install_panic_hook();
+                    let slot = next_slot.fetch_add(1, Ordering::SeqCst) % threads;
                     let mut stats = Stats::default();
                     let mut fails = vec![];
                     'outer: loop {
@@ -468,7 +497,10 @@ impl Report {
                         }
                         for i in lo..(lo + block).min(n) {
                             let mut case = Case { stats: &mut stats, counting: true, kf, property: id, strict };
-                            if let Err(e) = f(i, &mut case) {
+                            *current[slot].lock().unwrap() = Some((Instant::now(), i));
+                            let res = f(i, &mut case);
+                            *current[slot].lock().unwrap() = None;
+                            if let Err(e) = res {
                                 if survey {
                                     *stats.labels.entry(format!("FAIL:{}", e.clause)).or_default() += 1;
                                     continue;
@@ -482,9 +514,11 @@ impl Report {
                     let mut g = merged.lock().unwrap();
                     g.0.merge(stats);
                     g.1.extend(fails);
+                    live.fetch_sub(1, Ordering::SeqCst);
                 });
             }
         });
+        finished.store(true, Ordering::SeqCst);
         let (stats, mut fails) = merged.into_inner().unwrap();
         let evals = stats.evaluations;
         self.stats.merge(stats);
